@@ -49,3 +49,8 @@ claim("C04",
       "Decides that delivery and every anchored read interface compute the mailbox name with the same function (one authority), that every flow from the input address to a successfully returned name passes a case normaliser, and that successful results (and the base name of the local part) are provably non-empty. Necessary conditions of canonical naming for all inputs; idempotence over all strings and quoting corners are not decided.",
       "Trusts go/ssa; treats strings.ToLower/ToUpper/Map as case normalisers.",
       "DESIGN.md section 4, C04")
+claim("C02",
+      "backward value-flow with transformer classification (pass-through / lossy / unclassified tables) over go/ssa; structural checks of the reader concatenation, store sinks, source handlers and the POP3 line loop",
+      "Decides that no lossy operation lies on any byte path from the dot-decoded SMTP DATA block to Manager.Deliver, through Delivery.Reader into each store's sink, and back out through Source(), the REST/web source endpoints and POP3 streaming (token limit raised, dot-stuffing selected by HasPrefix, terminator on every exit); sizes are defined from the same bytes. An unknown consumer of the tracked bytes is undecided. Byte equality for every body and CR/LF normalisation details are not decided.",
+      "Trusts go/ssa, the pass-through table (bytes.NewBuffer, Buffer.Bytes, bytes.NewReader, io.ReadAll, io.NopCloser, io.Copy), enmime.DecodeHeaders being read-only, and textproto dot-decoding.",
+      "DESIGN.md section 4, C02")
